@@ -22,6 +22,11 @@
 //   bb <nActors> <nGrains>     -> kinds and sizes of buildRelocateBatchRequests
 //   rr <leaderRoles> <survivors> <requests>   requests: "-" or "/"-separated A<actors>+G<grains>
 //        -> "sh=.. lead=.. gr=.. fail=.."
+//   sp <peersE> <target>               peersE: ";"-separated host:port:roles (small ints; peers may share host or port)
+//        -> indices (into peersE) of survivingPeersExcept(peers, peers[target]), in order
+//   rx <leaderRoles> <peersE> <target> <requests>
+//        the first lines of relocateShare's error path: survivingPeersExcept then reassignByRole
+//        -> "sv=<indices> sh=.. lead=.. gr=.. fail=.."
 //   ll <survivors> <shareLens> <role>  -> index or -1
 //   el <roles> <role>                  -> true|false
 //   gate <actor>                       -> skip|proceed|err  (dispatch rule of enqueueRelocation)
@@ -77,6 +82,44 @@ func parsePeers(s string) ([]*cluster.Peer, bool) {
 		out = append(out, &cluster.Peer{Host: "10.0.0." + strconv.Itoa(i+1), RemotingPort: 7000 + i, PeersPort: 8000 + i, Roles: roles})
 	}
 	return out, true
+}
+
+// parsePeersE parses host:port:roles;... (endpoints may coincide in host or in port)
+func parsePeersE(s string) ([]*cluster.Peer, bool) {
+	if s == "." {
+		return nil, true
+	}
+	var out []*cluster.Peer
+	for _, t := range strings.Split(s, ";") {
+		f := strings.SplitN(t, ":", 3)
+		if len(f) != 3 {
+			return nil, false
+		}
+		h, e1 := strconv.Atoi(f[0])
+		p, e2 := strconv.Atoi(f[1])
+		roles, ok := parseRoles(f[2])
+		if e1 != nil || e2 != nil || !ok || h < 0 || p < 0 {
+			return nil, false
+		}
+		out = append(out, &cluster.Peer{Host: "10.0.1." + strconv.Itoa(h), RemotingPort: p, PeersPort: 8000, Roles: roles})
+	}
+	return out, true
+}
+
+func peerIndices(all, sel []*cluster.Peer) string {
+	if len(sel) == 0 {
+		return "-"
+	}
+	out := make([]string, len(sel))
+	for i, s := range sel {
+		out[i] = "foreign"
+		for j, p := range all {
+			if p == s {
+				out[i] = strconv.Itoa(j)
+			}
+		}
+	}
+	return strings.Join(out, ",")
 }
 
 type reg struct {
@@ -447,6 +490,43 @@ func handle(line string) string {
 			fs = strings.Join(fl, ",")
 		}
 		return fmt.Sprintf("sh=%s lead=%s gr=%s fail=%s", r.ashares(shares), r.aids(lead), r.gids(grains), fs)
+	case "sp":
+		if len(f) != 3 {
+			return "bad-case"
+		}
+		peers, ok := parsePeersE(f[1])
+		t, err := strconv.Atoi(f[2])
+		if !ok || err != nil || t < 0 || t >= len(peers) {
+			return "bad-case"
+		}
+		return peerIndices(peers, actor.VerifSurvivingPeersExcept(peers, peers[t]))
+	case "rx":
+		if len(f) != 5 {
+			return "bad-case"
+		}
+		leader, ok1 := parseRoles(f[1])
+		peers, ok2 := parsePeersE(f[2])
+		t, err := strconv.Atoi(f[3])
+		r := newReg()
+		reqs, ok3 := parseRequests(r, f[4])
+		if !(ok1 && ok2 && ok3) || err != nil || t < 0 || t >= len(peers) {
+			return "bad-case"
+		}
+		surv := actor.VerifSurvivingPeersExcept(peers, peers[t])
+		shares, lead, grains, fails := actor.VerifReassignByRole(reqs, surv, leader)
+		var fl []string
+		for _, fa := range fails {
+			if id, ok := r.byAddr[fa.GetId()]; ok && !fa.GetGrain() {
+				fl = append(fl, strconv.Itoa(id))
+			} else {
+				fl = append(fl, "foreign")
+			}
+		}
+		fs := "-"
+		if len(fl) > 0 {
+			fs = strings.Join(fl, ",")
+		}
+		return fmt.Sprintf("sv=%s sh=%s lead=%s gr=%s fail=%s", peerIndices(peers, surv), r.ashares(shares), r.aids(lead), r.gids(grains), fs)
 	case "ll":
 		if len(f) != 4 {
 			return "bad-case"
